@@ -190,8 +190,8 @@ where
                         }
                     } else if char == OSC {
                         let code = co.yield_(None).unwrap_or_default();
-                        if code == "R" || code == "p" {
-                            continue; // reset palette not implemented
+                        if code == "R" {
+                            continue; // reset palette (Linux console, no terminator) not implemented
                         }
                         // A terminator right after the introducer ends an empty string.
                         let mut first = code.clone();
@@ -330,8 +330,8 @@ where
                         }
                     } else if char == OSC {
                         let code = co.yield_(None).unwrap_or_default();
-                        if code == "R" || code == "p" {
-                            continue; // reset palette not implemented
+                        if code == "R" {
+                            continue; // reset palette (Linux console, no terminator) not implemented
                         }
                         // A terminator right after the introducer ends an empty string.
                         let mut first = code.clone();
